@@ -87,6 +87,16 @@ func (p *Program) verifyFunc(c *Contract) *FuncResult {
 	for _, fv := range fn.FreeVars {
 		bindParam(fv.Name(), fv, fv.Type())
 	}
+	// captured function variables resolved statically: their own captured variables are this closure's free variables
+	for _, v := range st.cells {
+		if fv, ok := v.(*FuncVal); ok {
+			for i, b := range fv.bindings {
+				if ref, ok := b.(*freeRef); ok {
+					fv.bindings[i] = fr.vals[ref.fv]
+				}
+			}
+		}
+	}
 	for _, g := range stateComponents {
 		entryEnv.Vars[g] = st.glob[g]
 	}
